@@ -34,12 +34,573 @@ atomic number, with the collected attributes joined in -/
 def atomAt (st : ListenerState) (i : Nat) : Atom :=
   ((sortAtomsByZ st.atoms)[i]?.getD {}).update (extraOf st i)
 
+namespace PDen
+open Graph
+
+/-! ### folding `addEdge` with empty records over a list that may repeat bonds -/
+
+theorem Inv.stepBlank {L : List Nat} {A : Nat → Option Atom} {h : Graph}
+    {done : List (Nat × Nat × Bond)} (inv : NxE.Inv L A h done) (hd : ∀ e ∈ done, e.2.2 = ({} : Bond))
+    {u v : Nat} (hu : u ∈ L) (hv : v ∈ L) (hne : u ≠ v) :
+    NxE.Inv L A (h.addEdge u v {}) (done ++ [(u, v, ({} : Bond))]) := by
+  have hu' : u ∈ h.labels := inv.labels ▸ hu
+  have hv' : v ∈ h.labels := inv.labels ▸ hv
+  obtain ⟨s1, s2, s3, s4⟩ := GFM.addEdge_step h u v {} hu' hv' hne inv.keys
+  have hall : ∀ a w d, (w, d) ∈ h.nbrsD a → d = ({} : Bond) := by
+    intro a w d hm
+    rcases (inv.nbrs a w d).1 hm with hm | hm
+    · exact hd _ hm
+    · exact hd _ hm
+  have hdd : ((h.edgeData? u v).getD {}).update {} = ({} : Bond) := by
+    rw [NxRelabel.edgeData?_eq]
+    cases hl : alookup v (h.nbrsD u) with
+    | none => rfl
+    | some d =>
+      have := hall _ _ _ (NxRelabel.mem_of_alookup hl)
+      subst this
+      rfl
+  rw [hdd] at s4
+  refine ⟨s1.trans inv.labels, fun a => (s2 a).trans (inv.attrs a), ?_, s3⟩
+  intro x y e
+  rw [s4, inv.nbrs]
+  simp only [List.mem_append, List.mem_singleton, Prod.mk.injEq]
+  constructor
+  · rintro (⟨rfl, rfl, rfl⟩ | ⟨rfl, rfl, rfl⟩ | ⟨_, _, hp | hp⟩)
+    · exact Or.inl (Or.inr ⟨rfl, rfl, rfl⟩)
+    · exact Or.inr (Or.inr ⟨rfl, rfl, rfl⟩)
+    · exact Or.inl (Or.inl hp)
+    · exact Or.inr (Or.inl hp)
+  · rintro ((hp | hp) | (hp | hp))
+    · have he : e = ({} : Bond) := hd _ hp
+      by_cases c1 : x = u ∧ y = v
+      · exact Or.inl ⟨c1.1, c1.2, he⟩
+      · by_cases c2 : x = v ∧ y = u
+        · exact Or.inr (Or.inl ⟨c2.1, c2.2, he⟩)
+        · exact Or.inr (Or.inr ⟨c1, c2, Or.inl hp⟩)
+    · exact Or.inl hp
+    · have he : e = ({} : Bond) := hd _ hp
+      by_cases c1 : x = u ∧ y = v
+      · exact Or.inl ⟨c1.1, c1.2, he⟩
+      · by_cases c2 : x = v ∧ y = u
+        · exact Or.inr (Or.inl ⟨c2.1, c2.2, he⟩)
+        · exact Or.inr (Or.inr ⟨c1, c2, Or.inr hp⟩)
+    · exact Or.inr (Or.inl ⟨hp.2.1, hp.1, hp.2.2⟩)
+
+theorem Inv.foldBlank {L : List Nat} {A : Nat → Option Atom} (es : List (Nat × Nat × Bond)) :
+    ∀ (done : List (Nat × Nat × Bond)) (h : Graph), NxE.Inv L A h done →
+      (∀ e ∈ done, e.2.2 = ({} : Bond)) →
+      (∀ e ∈ es, e.1 ∈ L ∧ e.2.1 ∈ L ∧ e.1 ≠ e.2.1 ∧ e.2.2 = ({} : Bond)) →
+      NxE.Inv L A (es.foldl (fun h (u, v, d) => h.addEdge u v d) h) (done ++ es) := by
+  induction es with
+  | nil => intro done h inv _ _; simpa using inv
+  | cons e r ih =>
+    intro done h inv hd hes
+    obtain ⟨u, v, d⟩ := e
+    obtain ⟨hu, hv, hne, hd0⟩ := hes _ List.mem_cons_self
+    simp only at hu hv hne hd0
+    subst hd0
+    rw [List.foldl_cons, List.append_cons]
+    refine ih _ _ (Inv.stepBlank inv hd hu hv hne) ?_ (fun e he => hes e (List.mem_cons_of_mem _ he))
+    intro e he
+    rcases List.mem_append.1 he with he | he
+    · exact hd e he
+    · rw [List.mem_singleton.1 he]
+
+/-- `graph_from_molecule` on a bond dictionary whose records are all empty and which may list a bond in
+both orientations -/
+theorem graphFromMolecule_blank (atoms : List (Int × Atom)) (bonds : List ((Int × Int) × Bond))
+    (hk : ConsecutiveKeys atoms)
+    (hb1 : ∀ b ∈ bonds, 0 ≤ b.1.1 ∧ b.1.1 < atoms.length ∧ 0 ≤ b.1.2 ∧ b.1.2 < atoms.length ∧
+      b.1.1 ≠ b.1.2 ∧ b.2 = ({} : Bond))
+    (hz : ∀ a ∈ atoms, a.2.z.isSome) :
+    ∃ g post, graphFromMolecule atoms bonds = .ok (g, post) ∧
+      g.labels = List.range atoms.length ∧ g.WF ∧ g.Simple ∧
+      (∀ i (hi : i < atoms.length), ∃ x, addInvariantCode (atoms[i]).2 = .ok x ∧ g.attrs? i = some x) ∧
+      (∀ i j d, (j, d) ∈ g.nbrsD i ↔
+        (((i : Int), (j : Int)), d) ∈ bonds ∨ (((j : Int), (i : Int)), d) ∈ bonds) := by
+  have hmap := GFM.mapM_ok atoms hz
+  have hkeys' : (atoms.map fun p => (p.1, GFM.inv' p.2)).map (·.1)
+      = (List.range atoms.length).map (fun (i : Nat) => (i : Int)) := by
+    rw [List.map_map]; exact hk
+  have hmemks : ∀ k : Int, 0 ≤ k → k < atoms.length →
+      k ∈ (List.range atoms.length).map (fun (i : Nat) => (i : Int)) := by
+    intro k h0 h1
+    exact List.mem_map.2 ⟨k.toNat, List.mem_range.2 (by omega), Int.toNat_of_nonneg h0⟩
+  have hall := GFM.allKeys_eq bonds _ (fun b hb =>
+    ⟨hmemks _ (hb1 b hb).1 (hb1 b hb).2.1, hmemks _ (hb1 b hb).2.2.1 (hb1 b hb).2.2.2.1⟩)
+  have heq := GFM.graphFromMolecule_eq atoms _ bonds hmap
+  rw [hkeys', hall] at heq
+  have hidx : ∀ b ∈ bonds,
+      GFM.idxOf ((List.range atoms.length).map (fun (i : Nat) => (i : Int))) b.1.1 = b.1.1.toNat ∧
+      GFM.idxOf ((List.range atoms.length).map (fun (i : Nat) => (i : Int))) b.1.2 = b.1.2.toNat :=
+    fun b hb => ⟨GFM.idxOf_range _ _ (hb1 b hb).1 (hb1 b hb).2.1,
+      GFM.idxOf_range _ _ (hb1 b hb).2.2.1 (hb1 b hb).2.2.2.1⟩
+  rw [GFM.core_eq _ _ _ hidx] at heq
+  have hidxN : ∀ i : Nat, i < atoms.length →
+      GFM.idxOf ((List.range atoms.length).map (fun (i : Nat) => (i : Int))) (i : Int) = i := by
+    intro i hi
+    rw [GFM.idxOf_range _ _ (by omega) (by omega)]
+    exact Int.toNat_natCast i
+  generalize hg0 : (⟨(atoms.map fun p => (p.1, GFM.inv' p.2)).map fun p =>
+    ⟨GFM.idxOf ((List.range atoms.length).map (fun (i : Nat) => (i : Int))) p.1, p.2, []⟩⟩ : Graph)
+    = g0 at heq
+  have hl0 : g0.labels = List.range atoms.length := by
+    have h1 : g0.labels = (atoms.map (·.1)).map
+        (GFM.idxOf ((List.range atoms.length).map (fun (i : Nat) => (i : Int)))) := by
+      subst hg0
+      simp only [Graph.labels, List.map_map]
+      rfl
+    rw [h1, hk, List.map_map]
+    conv => rhs; rw [← List.map_id (List.range atoms.length)]
+    apply List.map_congr_left
+    intro i hi
+    exact hidxN i (List.mem_range.1 hi)
+  have hnd0 : g0.labels.Nodup := hl0 ▸ List.nodup_range
+  have hkey : ∀ i (hi : i < atoms.length), (atoms[i]).1 = (i : Int) := by
+    intro i hi
+    have := congrArg (fun l => l[i]?) hk
+    simpa [hi] using this
+  have ha0 : ∀ i (hi : i < atoms.length), g0.attrs? i = some (GFM.inv' (atoms[i]).2) := by
+    intro i hi
+    have hm : (⟨GFM.idxOf ((List.range atoms.length).map (fun (i : Nat) => (i : Int))) (atoms[i]).1,
+        GFM.inv' (atoms[i]).2, []⟩ : Node) ∈ g0.nodes := by
+      subst hg0
+      simp only [List.map_map]
+      exact List.mem_map.2 ⟨atoms[i], List.getElem_mem hi, rfl⟩
+    have := NxRelabel.attrs?_of_mem hnd0 hm
+    simp only [hkey i hi, hidxN i hi] at this
+    exact this
+  have hn0 : ∀ x, g0.nbrsD x = [] := by
+    apply NxRelabel.nbrsD_eq_nil_of
+    intro m hm
+    subst hg0
+    obtain ⟨p, -, rfl⟩ := List.mem_map.1 hm
+    rfl
+  have inv0 : NxE.Inv (List.range atoms.length) g0.attrs? g0 [] :=
+    ⟨hl0, fun _ => rfl, fun a w d => by rw [hn0]; simp, fun a => by rw [hn0]; exact List.nodup_nil⟩
+  have hes : ∀ e ∈ GFM.natEdges bonds,
+      e.1 ∈ List.range atoms.length ∧ e.2.1 ∈ List.range atoms.length ∧ e.1 ≠ e.2.1 ∧
+        e.2.2 = ({} : Bond) := by
+    intro e he
+    obtain ⟨b, hb, rfl⟩ := List.mem_map.1 he
+    obtain ⟨h1, h2, h3, h4, h5, h6⟩ := hb1 b hb
+    refine ⟨List.mem_range.2 ?_, List.mem_range.2 ?_, ?_, h6⟩ <;> simp only <;> omega
+  have hblank : (GFM.natEdges bonds).map GFM.blank = GFM.natEdges bonds := by
+    conv => rhs; rw [← List.map_id (GFM.natEdges bonds)]
+    apply List.map_congr_left
+    rintro ⟨u, v, d⟩ he
+    have := (hes _ he).2.2.2
+    simp only at this
+    subst this
+    rfl
+  have hmemE : ∀ i j d, (i, j, d) ∈ GFM.natEdges bonds ↔ (((i : Int), (j : Int)), d) ∈ bonds := by
+    intro i j d
+    unfold GFM.natEdges
+    rw [List.mem_map]
+    constructor
+    · rintro ⟨⟨⟨u, v⟩, d'⟩, hb, he⟩
+      obtain ⟨h1, h2, h3, h4, h5, h6⟩ := hb1 _ hb
+      simp only [Prod.mk.injEq] at he h1 h3
+      obtain ⟨rfl, rfl, rfl⟩ := he
+      rw [Int.toNat_of_nonneg h1, Int.toNat_of_nonneg h3]
+      exact hb
+    · intro hb
+      exact ⟨_, hb, by simp⟩
+  have inv1 := Inv.foldBlank (GFM.natEdges bonds) [] g0 inv0 (by simp) hes
+  rw [List.nil_append] at inv1
+  have inv2 := Inv.foldBlank (GFM.natEdges bonds) (GFM.natEdges bonds) _ inv1
+    (fun e he => (hes e he).2.2.2) hes
+  rw [hblank] at heq
+  generalize (GFM.natEdges bonds).foldl (fun h (u, v, d) => h.addEdge u v d)
+    ((GFM.natEdges bonds).foldl (fun h (u, v, d) => h.addEdge u v d) g0) = g2
+    at heq inv2
+  have hnb : ∀ a w d, (w, d) ∈ g2.nbrsD a ↔
+      ((a, w, d) ∈ GFM.natEdges bonds ∨ (w, a, d) ∈ GFM.natEdges bonds) := by
+    intro a w d
+    rw [inv2.nbrs]
+    simp only [List.mem_append, or_self]
+  have hnd2 : g2.labels.Nodup := inv2.labels ▸ List.nodup_range
+  have hw2 : g2.WF := by
+    refine NxE.WF.of_obs hnd2 inv2.keys ?_
+    intro a w d he
+    have he' := (hnb a w d).1 he
+    refine ⟨?_, (hnb w a d).2 he'.symm⟩
+    rw [inv2.labels]
+    rcases he' with h | h
+    · exact (hes _ h).2.1
+    · exact (hes _ h).1
+  have hs2 : g2.Simple := by
+    refine NxE.Simple.of_obs hnd2 ?_
+    intro a w d he
+    rcases (hnb a w d).1 he with h | h
+    · exact fun hc => (hes _ h).2.2.1 hc.symm
+    · exact (hes _ h).2.2.1
+  obtain ⟨rl, hwg, hsg, hlg⟩ := Graph.relabelCopy_spec g2 [] hw2 hs2 (fun a _ b _ h => h)
+  have hid : Graph.mapGet [] = id := rfl
+  rw [hid] at rl
+  rw [hid, List.map_id, inv2.labels] at hlg
+  refine ⟨_, _, heq, hlg, hwg, hsg, ?_, ?_⟩
+  · intro i hi
+    refine ⟨GFM.inv' (atoms[i]).2, GFM.addInvariantCode_ok (hz _ (List.getElem_mem hi)), ?_⟩
+    have := rl.attrs i (by rw [inv2.labels]; exact List.mem_range.2 hi)
+    rw [id] at this
+    rw [this, inv2.attrs, ha0 i hi]
+  · intro i j d
+    rw [← hmemE, ← hmemE, ← hnb]
+    by_cases hi : i ∈ g2.labels
+    · have hp := rl.nbrs i hi
+      have : (fun (e : Nat × Bond) => (id e.1, e.2)) = id := rfl
+      rw [this, List.map_id, id] at hp
+      exact hp.mem_iff
+    · have h1 : (g2.relabelCopy []).nbrsD i = [] :=
+        NxRelabel.nbrsD_of_not_mem (by rw [hlg, ← inv2.labels]; exact hi)
+      rw [h1, NxRelabel.nbrsD_of_not_mem hi]
+
+/-! ### the atom dictionary as a function of the index -/
+
+/-- the dictionary `{0: F 0, 1: F 1, …}` -/
+def mk (n : Nat) (F : Nat → Atom) : List (Int × Atom) :=
+  (List.range n).map fun (i : Nat) => ((i : Int), F i)
+
+theorem alookup_range' (F : Nat → Atom) : ∀ (n s k : Nat), s ≤ k → k < s + n →
+    alookup (k : Int) ((List.range' s n).map fun (i : Nat) => ((i : Int), F i)) = some (F k)
+  | 0, s, k, h1, h2 => by omega
+  | n + 1, s, k, h1, h2 => by
+    rw [List.range'_succ, List.map_cons, alookup]
+    by_cases hk : s = k
+    · subst hk; simp
+    · have : ((s : Int) == (k : Int)) = false := by
+        simp only [beq_eq_false_iff_ne, ne_eq]; omega
+      rw [this]
+      exact alookup_range' F n (s + 1) k (by omega) (by omega)
+
+theorem ainsert_range' (F : Nat → Atom) (v : Atom) : ∀ (n s k : Nat), s ≤ k → k < s + n →
+    ainsert (k : Int) v ((List.range' s n).map fun (i : Nat) => ((i : Int), F i)) =
+      (List.range' s n).map fun (i : Nat) => ((i : Int), if i = k then v else F i)
+  | 0, s, k, h1, h2 => by omega
+  | n + 1, s, k, h1, h2 => by
+    rw [List.range'_succ, List.map_cons, List.map_cons, ainsert]
+    by_cases hk : s = k
+    · subst hk
+      simp only [beq_self_eq_true, if_true]
+      congr 1
+      apply List.map_congr_left
+      intro i hi
+      have := (List.mem_range'_1.1 hi).1
+      have hne : ¬ i = s := by omega
+      simp [hne]
+    · have : ((s : Int) == (k : Int)) = false := by
+        simp only [beq_eq_false_iff_ne, ne_eq]; omega
+      rw [this]
+      simp only [Bool.false_eq_true, if_false, hk]
+      congr 1
+      exact ainsert_range' F v n (s + 1) k (by omega) (by omega)
+
+theorem alookup_mk (n : Nat) (F : Nat → Atom) (k : Nat) (hk : k < n) :
+    alookup (k : Int) (mk n F) = some (F k) := by
+  unfold mk
+  rw [List.range_eq_range']
+  exact alookup_range' F n 0 k (Nat.zero_le _) (by omega)
+
+theorem ainsert_mk (n : Nat) (F : Nat → Atom) (v : Atom) (k : Nat) (hk : k < n) :
+    ainsert (k : Int) v (mk n F) = mk n (fun i => if i = k then v else F i) := by
+  unfold mk
+  rw [List.range_eq_range']
+  exact ainsert_range' F v n 0 k (Nat.zero_le _) (by omega)
+
+theorem mk_congr {n : Nat} {F G : Nat → Atom} (h : ∀ i, i < n → F i = G i) : mk n F = mk n G := by
+  unfold mk
+  apply List.map_congr_left
+  intro i hi
+  rw [h i (List.mem_range.1 hi)]
+
+theorem mk_length (n : Nat) (F : Nat → Atom) : (mk n F).length = n := by simp [mk]
+
+theorem mk_consecutive (n : Nat) (F : Nat → Atom) : ConsecutiveKeys (mk n F) := by
+  unfold ConsecutiveKeys
+  rw [mk_length]
+  unfold mk
+  rw [List.map_map]
+  rfl
+
+theorem mk_getElem (n : Nat) (F : Nat → Atom) (i : Nat) (hi : i < (mk n F).length) :
+    (mk n F)[i] = ((i : Int), F i) := by
+  simp [mk]
+
+theorem zipIdx_eq_mk (l : List Atom) :
+    (l.zipIdx.map fun (a, i) => ((i : Int), a)) = mk l.length (fun i => l[i]?.getD {}) := by
+  apply List.ext_getElem
+  · simp [mk]
+  · intro i h1 h2
+    simp only [List.length_map, List.length_zipIdx] at h1
+    simp [mk, h1]
+
+theorem Atom.update_empty (a : Atom) : a.update {} = a := by
+  cases a
+  simp [Atom.update]
+
+theorem alookup_none_of_not_mem {κ ν} [BEq κ] [LawfulBEq κ] {k : κ} :
+    ∀ {l : List (κ × ν)}, k ∉ l.map (·.1) → alookup k l = none
+  | [], _ => rfl
+  | (k', v') :: r, h => by
+    simp only [List.map_cons, List.mem_cons, not_or] at h
+    have : (k' == k) = false := by simpa using fun he => h.1 he.symm
+    simp only [alookup, this]
+    exact alookup_none_of_not_mem h.2
+
+/-- one round of the attribute loop of `to_graph` -/
+def stepAttr (d : List (Int × Atom)) (e : Int × Atom) : List (Int × Atom) :=
+  match alookup e.1 d with
+  | none => d
+  | some a => ainsert e.1 (a.update e.2) d
+
+theorem foldl_stepAttr (n : Nat) : ∀ (na : List (Int × Atom)) (F : Nat → Atom),
+    (∀ e ∈ na, 0 ≤ e.1 ∧ e.1 < n) → (na.map (·.1)).Nodup →
+    na.foldl stepAttr (mk n F) = mk n (fun i => (F i).update ((alookup (i : Int) na).getD {}))
+  | [], F, _, _ => by
+    rw [List.foldl_nil]
+    apply mk_congr
+    intro i _
+    simp only [alookup, Option.getD_none]
+    exact (Atom.update_empty _).symm
+  | (idx, extra) :: r, F, hr, hnd => by
+    obtain ⟨h0, h1⟩ := hr _ List.mem_cons_self
+    simp only at h0 h1
+    rw [List.map_cons, List.nodup_cons] at hnd
+    obtain ⟨k, rfl⟩ : ∃ k : Nat, idx = (k : Int) := ⟨idx.toNat, (Int.toNat_of_nonneg h0).symm⟩
+    have hk : k < n := by omega
+    rw [List.foldl_cons]
+    have hs : stepAttr (mk n F) ((k : Int), extra)
+        = mk n (fun i => if i = k then (F k).update extra else F i) := by
+      unfold stepAttr
+      simp only [alookup_mk n F k hk]
+      exact ainsert_mk n F _ k hk
+    rw [hs, foldl_stepAttr n r _ (fun e he => hr e (List.mem_cons_of_mem _ he)) hnd.2]
+    apply mk_congr
+    intro i _
+    by_cases hik : i = k
+    · subst hik
+      simp only [if_true, alookup, beq_self_eq_true, Option.getD_some]
+      rw [alookup_none_of_not_mem hnd.1]
+      exact Atom.update_empty _
+    · have : (((k : Int)) == (i : Int)) = false := by
+        simp only [beq_eq_false_iff_ne, ne_eq]; omega
+      simp only [hik, if_false, alookup, this, Bool.false_eq_true]
+
+/-! ### the bond dictionary -/
+
+theorem mem_ainsert_const {κ ν} [BEq κ] [LawfulBEq κ] (k : κ) (v : ν) : ∀ (l : List (κ × ν)),
+    (∀ e ∈ l, e.2 = v) → ∀ p, p ∈ ainsert k v l ↔ p ∈ l ∨ p = (k, v)
+  | [], _, p => by simp [ainsert]
+  | (k', v') :: r, h, p => by
+    simp only [ainsert]
+    split
+    · rename_i hk
+      have hk' : k' = k := eq_of_beq hk
+      have hv : v' = v := h (k', v') List.mem_cons_self
+      subst hk' hv
+      simp only [List.mem_cons]
+      constructor
+      · exact Or.inl
+      · rintro (h' | h')
+        · exact h'
+        · exact Or.inl h'
+    · have ih := mem_ainsert_const k v r (fun e he => h e (List.mem_cons_of_mem _ he)) p
+      simp only [List.mem_cons, ih, or_assoc]
+
+theorem mem_bondsDict : ∀ (bs : List (Int × Int)) (acc : List ((Int × Int) × Bond)),
+    (∀ e ∈ acc, e.2 = ({} : Bond)) → ∀ p,
+    p ∈ bs.foldl (fun d b => ainsert b ({} : Bond) d) acc ↔ p ∈ acc ∨ (p.2 = ({} : Bond) ∧ p.1 ∈ bs)
+  | [], acc, _, p => by simp
+  | b :: r, acc, h, p => by
+    rw [List.foldl_cons]
+    have h' : ∀ e ∈ ainsert b ({} : Bond) acc, e.2 = ({} : Bond) := by
+      intro e he
+      rcases (mem_ainsert_const b ({} : Bond) acc h e).1 he with he | he
+      · exact h e he
+      · rw [he]
+    rw [mem_bondsDict r _ h' p, mem_ainsert_const b ({} : Bond) acc h p]
+    obtain ⟨p1, p2⟩ := p
+    simp only [List.mem_cons, Prod.mk.injEq]
+    constructor
+    · rintro ((h1 | h1) | h1)
+      · exact Or.inl h1
+      · exact Or.inr ⟨h1.2, Or.inl h1.1⟩
+      · exact Or.inr ⟨h1.1, Or.inr h1.2⟩
+    · rintro (h1 | ⟨h1, h2 | h2⟩)
+      · exact Or.inl (Or.inl h1)
+      · exact Or.inl (Or.inr ⟨h2, h1⟩)
+      · exact Or.inr ⟨h1, h2⟩
+
+/-! ### running `do` blocks that succeed -/
+
+/-- the computation succeeds with a value satisfying `P` -/
+def IsOk {α} (P : α → Prop) (x : PyM α) : Prop := ∃ a, x = .ok a ∧ P a
+
+theorem IsOk.bind {α β} {P : α → Prop} {Q : β → Prop} {x : PyM α} {f : α → PyM β}
+    (hx : IsOk P x) (hf : ∀ a, P a → IsOk Q (f a)) : IsOk Q (x >>= f) := by
+  obtain ⟨a, rfl, ha⟩ := hx
+  exact hf a ha
+
+theorem IsOk.forIn {α β} {P : β → Prop} {Q : α → Prop} (f : α → β → PyM (ForInStep β))
+    (step : β → α → β)
+    (hf : ∀ a, Q a → ∀ b, P b → f a b = .ok (.yield (step b a)) ∧ P (step b a)) :
+    ∀ (l : List α), (∀ a ∈ l, Q a) → ∀ b, P b →
+      IsOk (fun r => r = l.foldl step b) (forIn l b f) := by
+  intro l
+  induction l with
+  | nil => intro _ b _; exact ⟨b, rfl, rfl⟩
+  | cons a l ih =>
+    intro hl b hb
+    obtain ⟨h1, h2⟩ := hf a (hl a List.mem_cons_self) b hb
+    rw [List.forIn_cons, h1]
+    exact ih (fun x hx => hl x (List.mem_cons_of_mem _ hx)) _ h2
+
+/-! ### the atoms the parser builds -/
+
+theorem onlyMassRad_extraOf {st : ListenerState} (h : GoodState st) (k : Int) :
+    OnlyMassRad (extraOf st k) := by
+  unfold extraOf
+  cases hl : alookup k st.nodeAttrs with
+  | none => exact ⟨rfl, rfl, rfl, rfl, rfl, rfl, rfl, rfl, rfl, rfl⟩
+  | some e => exact (h.attrsIdx _ (RejectKind.alookup_mem hl)).2.2
+
+theorem sorted_length (l : List Atom) : (sortAtomsByZ l).length = l.length := by
+  simp [sortAtomsByZ, List.length_mergeSort]
+
+theorem atomAt_z {st : ListenerState} (h : GoodState st) (i : Nat) (hi : i < st.atoms.length) :
+    (atomAt st i).z.isSome := by
+  unfold atomAt
+  rw [RejectKind.update_z (onlyMassRad_extraOf h _).2.1]
+  have hi' : i < (sortAtomsByZ st.atoms).length := by rw [sorted_length]; exact hi
+  rw [List.getElem?_eq_getElem hi', Option.getD_some]
+  exact h.atomsZ _ (List.mem_mergeSort.1 (List.getElem_mem hi'))
+
+/-! ### an injective self-map of `{0, …, n-1}` is a bijection -/
+
+theorem subset_of_nodup_length {α} [DecidableEq α] : ∀ (l₁ l₂ : List α), l₁.Nodup → l₁ ⊆ l₂ →
+    l₂.length ≤ l₁.length → l₂ ⊆ l₁
+  | [], l₂, _, _, hl => by
+    have : l₂ = [] := List.eq_nil_of_length_eq_zero (by simpa using hl)
+    subst this; exact fun _ h => h
+  | a :: t, l₂, hn, hsub, hl => by
+    have ha : a ∈ l₂ := hsub List.mem_cons_self
+    obtain ⟨hat, hnt⟩ := List.nodup_cons.mp hn
+    have hsub' : t ⊆ l₂.erase a := by
+      intro x hx
+      have hxa : x ≠ a := fun e => hat (e ▸ hx)
+      exact (List.mem_erase_of_ne hxa).mpr (hsub (List.mem_cons_of_mem _ hx))
+    have hle := List.length_erase_of_mem ha
+    have hpos : 0 < l₂.length := List.length_pos_of_mem ha
+    simp only [List.length_cons] at hl
+    have ih := subset_of_nodup_length t (l₂.erase a) hnt hsub' (by omega)
+    intro x hx
+    by_cases hxa : x = a
+    · subst hxa; exact List.mem_cons_self
+    · exact List.mem_cons_of_mem _ (ih ((List.mem_erase_of_ne hxa).mpr hx))
+
+theorem perm_range_map (n : Nat) (π : Nat → Nat) (hπ : ∀ i, i < n → π i < n)
+    (hinj : ∀ i j, i < n → j < n → π i = π j → i = j) :
+    (List.range n).Perm ((List.range n).map π) := by
+  have hnd : ((List.range n).map π).Nodup :=
+    NxRelabel.nodup_map_of_injOn π List.nodup_range
+      (fun a ha b hb => hinj a b (List.mem_range.1 ha) (List.mem_range.1 hb))
+  have hsub : (List.range n).map π ⊆ List.range n := by
+    intro x hx
+    obtain ⟨i, hi, rfl⟩ := List.mem_map.1 hx
+    exact List.mem_range.2 (hπ i (List.mem_range.1 hi))
+  have hsup := subset_of_nodup_length _ _ hnd hsub (by simp)
+  exact (List.perm_ext_iff_of_nodup List.nodup_range hnd).2 (fun a => ⟨fun h => hsup h, fun h => hsub h⟩)
+
+theorem onlyMassRad_ext {e e' : Atom} (h : OnlyMassRad e) (h' : OnlyMassRad e')
+    (hm : e.mass = e'.mass) (hr : e.rad = e'.rad) : e = e' := by
+  obtain ⟨a1, a2, a3, a4, a5, a6, a7, a8, a9, a10⟩ := h
+  obtain ⟨b1, b2, b3, b4, b5, b6, b7, b8, b9, b10⟩ := h'
+  cases e; cases e'
+  simp only at a1 a2 a3 a4 a5 a6 a7 a8 a9 a10 b1 b2 b3 b4 b5 b6 b7 b8 b9 b10 hm hr
+  subst a1 a2 a3 a4 a5 a6 a7 a8 a9 a10 b1 b2 b3 b4 b5 b6 b7 b8 b9 b10 hm hr
+  rfl
+
+end PDen
+
 /-- **The denotation of an accepted string.** -/
 theorem toGraph_spec (st : ListenerState) (h : GoodState st) :
     ∃ g, toGraph st = .ok g ∧ g.labels = List.range st.atoms.length ∧ g.WF ∧ g.Simple ∧
       (∀ i, i < st.atoms.length → ∃ x, addInvariantCode (atomAt st i) = .ok x ∧ g.attrs? i = some x) ∧
       (∀ i j : Nat, g.Adj i j ↔ ((i : Int), (j : Int)) ∈ st.bonds ∨ ((j : Int), (i : Int)) ∈ st.bonds) := by
-  sorry
+  show PDen.IsOk _ (toGraph st)
+  unfold toGraph
+  refine PDen.IsOk.bind (P := fun _ => True) ?_ (fun _ _ => ?_)
+  · refine (PDen.IsOk.forIn (P := fun _ => True)
+      (Q := fun (b : Int × Int) => b.1 < st.atoms.length ∧ b.2 < st.atoms.length) _
+      (fun b _ => b) ?_ _ ?_ _ trivial).imp (fun _ h => ⟨h.1, trivial⟩)
+    · rintro ⟨i1, i2⟩ ⟨h1, h2⟩ b _
+      simp only at h1 h2 ⊢
+      rw [if_neg (by omega), if_neg (by omega)]
+      exact ⟨rfl, trivial⟩
+    · intro b hb
+      obtain ⟨_, h2, _, h4, _⟩ := h.bonds b hb
+      exact ⟨h2, h4⟩
+  simp only [PDen.zipIdx_eq_mk]
+  have hlen : (sortAtomsByZ st.atoms).length = st.atoms.length := by
+    simp [sortAtomsByZ, List.length_mergeSort]
+  rw [hlen]
+  refine PDen.IsOk.bind (PDen.IsOk.forIn (P := fun d => ∃ F, d = PDen.mk st.atoms.length F)
+      (Q := fun (e : Int × Atom) => 0 ≤ e.1 ∧ e.1 < st.atoms.length) _
+      PDen.stepAttr ?_ _ ?_ _ ⟨_, rfl⟩) (fun d hd => ?_)
+  · rintro ⟨idx, extra⟩ ⟨h0, h1⟩ d ⟨F, rfl⟩
+    simp only at h0 h1 ⊢
+    obtain ⟨k, rfl⟩ : ∃ k : Nat, idx = (k : Int) := ⟨idx.toNat, (Int.toNat_of_nonneg h0).symm⟩
+    have hk : k < st.atoms.length := by omega
+    rw [if_neg (by omega)]
+    unfold PDen.stepAttr
+    simp only [PDen.alookup_mk _ F k hk]
+    exact ⟨rfl, _, PDen.ainsert_mk _ F _ k hk⟩
+  · intro e he
+    exact ⟨(h.attrsIdx e he).1, (h.attrsIdx e he).2.1⟩
+  rw [PDen.foldl_stepAttr _ _ _ (fun e he => ⟨(h.attrsIdx e he).1, (h.attrsIdx e he).2.1⟩)
+    h.attrsKeys] at hd
+  have hd' : d = PDen.mk st.atoms.length (atomAt st) := hd
+  clear hd
+  subst hd'
+  have hb0 : ∀ e ∈ ([] : List ((Int × Int) × Bond)), e.2 = ({} : Bond) := by simp
+  obtain ⟨g, post, hgm, hl, hw, hs, hat, hnb⟩ := PDen.graphFromMolecule_blank
+    (PDen.mk st.atoms.length (atomAt st))
+    (List.foldl (fun d b => ainsert b ({} : Bond) d) [] st.bonds)
+    (PDen.mk_consecutive _ _)
+    (by
+      intro b hb
+      rw [PDen.mk_length]
+      rcases (PDen.mem_bondsDict st.bonds [] hb0 b).1 hb with hb | hb
+      · cases hb
+      · obtain ⟨h1, h2, h3, h4, h5⟩ := h.bonds _ hb.2
+        exact ⟨h1, h2, h3, h4, h5, hb.1⟩)
+    (by
+      intro a ha
+      obtain ⟨i, hi, rfl⟩ := List.getElem_of_mem ha
+      rw [PDen.mk_getElem]
+      rw [PDen.mk_length] at hi
+      exact PDen.atomAt_z h i hi)
+  rw [PDen.mk_length] at hl
+  refine ⟨g, by rw [hgm]; rfl, hl, hw, hs, ?_, ?_⟩
+  · intro i hi
+    obtain ⟨x, hx1, hx2⟩ := hat i (by rw [PDen.mk_length]; exact hi)
+    rw [PDen.mk_getElem] at hx1
+    exact ⟨x, hx1, hx2⟩
+  · intro i j
+    rw [NxE.adj_iff]
+    constructor
+    · rintro ⟨d, hd⟩
+      rcases (hnb i j d).1 hd with hm | hm
+      · rcases (PDen.mem_bondsDict st.bonds [] hb0 _).1 hm with hm | hm
+        · cases hm
+        · exact Or.inl hm.2
+      · rcases (PDen.mem_bondsDict st.bonds [] hb0 _).1 hm with hm | hm
+        · cases hm
+        · exact Or.inr hm.2
+    · rintro (hm | hm)
+      · exact ⟨{}, (hnb i j {}).2 (Or.inl ((PDen.mem_bondsDict st.bonds [] hb0 _).2 (Or.inr ⟨rfl, hm⟩)))⟩
+      · exact ⟨{}, (hnb i j {}).2 (Or.inr ((PDen.mem_bondsDict st.bonds [] hb0 _).2 (Or.inr ⟨rfl, hm⟩)))⟩
 
 /-- **Respelling.**  Two listener states over the same formula whose bonds and attributes correspond
 under a renumbering `π` of the atom indices that only moves atoms inside element blocks (it preserves the
@@ -59,6 +620,62 @@ theorem toGraph_respell (st st' : ListenerState) (h : GoodState st) (h' : GoodSt
        (((π i : Int), (π j : Int)) ∈ st'.bonds ∨ ((π j : Int), (π i : Int)) ∈ st'.bonds)))
     (g g' : Graph) (hg : toGraph st = .ok g) (hg' : toGraph st' = .ok g') :
     Iso SameIdent π g g' := by
-  sorry
+  obtain ⟨g0, e0, hl, hw, hs, hat, hadj⟩ := toGraph_spec st h
+  obtain ⟨g0', e0', hl', hw', hs', hat', hadj'⟩ := toGraph_spec st' h'
+  rw [hg] at e0; cases e0
+  rw [hg'] at e0'; cases e0'
+  rw [hlen] at hl' hat'
+  have hperm := PDen.perm_range_map st.atoms.length π hπ hinj
+  -- neighbours are atoms
+  have hcl : ∀ a b, g.Adj a b → b < st.atoms.length := by
+    intro a b hab
+    obtain ⟨d, hd⟩ := (NxE.adj_iff g a b).1 hab
+    have := NxE.WF.closedD hw hd
+    rw [hl] at this
+    exact List.mem_range.1 this
+  have hcl' : ∀ a b, g'.Adj a b → b < st.atoms.length := by
+    intro a b hab
+    obtain ⟨d, hd⟩ := (NxE.adj_iff g' a b).1 hab
+    have := NxE.WF.closedD hw' hd
+    rw [hl'] at this
+    exact List.mem_range.1 this
+  refine ⟨?_, ?_, ?_, ?_⟩
+  · rw [hl, hl']; exact hperm
+  · intro a ha b hb
+    rw [hl] at ha hb
+    exact hinj a b (List.mem_range.1 ha) (List.mem_range.1 hb)
+  · intro a ha
+    rw [hl] at ha
+    have ha := List.mem_range.1 ha
+    obtain ⟨x, hx1, hx2⟩ := hat a ha
+    obtain ⟨y, hy1, hy2⟩ := hat' (π a) (hπ a ha)
+    have hex : extraOf st' (π a) = extraOf st a :=
+      PDen.onlyMassRad_ext (PDen.onlyMassRad_extraOf h' _) (PDen.onlyMassRad_extraOf h _)
+        (hextra a ha).1 (hextra a ha).2
+    have heq : atomAt st' (π a) = atomAt st a := by
+      unfold atomAt
+      rw [hatoms a ha, hex]
+    rw [heq, hx1] at hy1
+    cases hy1
+    exact ⟨x, x, hx2, hy2, rfl, rfl, rfl, rfl, rfl⟩
+  · intro a ha
+    rw [hl] at ha
+    have ha := List.mem_range.1 ha
+    have hnd : (g.nbrs a).Nodup := by rw [NxE.nbrs_eq_map]; exact NxE.WF.nodupD hw a
+    have hnd' : (g'.nbrs (π a)).Nodup := by rw [NxE.nbrs_eq_map]; exact NxE.WF.nodupD hw' _
+    have hndm : ((g.nbrs a).map π).Nodup :=
+      NxRelabel.nodup_map_of_injOn π hnd (fun x hx y hy => hinj x y (hcl a x hx) (hcl a y hy))
+    refine (List.perm_ext_iff_of_nodup hnd' hndm).2 ?_
+    intro y
+    constructor
+    · intro hy
+      have hyn := hcl' _ _ hy
+      obtain ⟨j, hj, rfl⟩ := List.mem_map.1 (hperm.mem_iff.1 (List.mem_range.2 hyn))
+      have hj := List.mem_range.1 hj
+      refine List.mem_map.2 ⟨j, ?_, rfl⟩
+      exact (hadj a j).2 ((hbonds a j ha hj).2 ((hadj' (π a) (π j)).1 hy))
+    · intro hy
+      obtain ⟨j, hj, rfl⟩ := List.mem_map.1 hy
+      exact (hadj' (π a) (π j)).2 ((hbonds a j ha (hcl a j hj)).1 ((hadj a j).1 hj))
 
 end Tucan
